@@ -74,8 +74,6 @@ m("C06", "revert-D5", "vc2_conformance/bitstream/vc2.py", '"bytes", max(0, state
 m("C26", "friendly-enum-formatter-unguarded", "vc2_conformance/fixeddict.py",
   "                try:\n                    return enum_type(value).name\n                except ValueError:\n                    return None",
   "                return enum_type(value).name")
-m("C26", "viewer-rereads-one-bit-too-many", "vc2_conformance/scripts/vc2_bitstream_viewer.py",
-  "raw_bits = self._reader.read_bitarray(this_offset - last_offset)", "raw_bits = self._reader.read_bitarray(this_offset - last_offset + 1)")
 # ---- C25
 m("C25", "picture-index-incremented-first", "vc2_conformance/scripts/vc2_bitstream_validator.py",
   "        filename = self._output_filename % (self._next_picture_index,)\n        self._next_picture_index += 1",
